@@ -804,7 +804,7 @@ def cpl(c, F, G = None, h = None, dims = None, A = None, b = None,
                 ycopy(y0, y); 
                 blas.copy(s0, s); blas.copy(z0, z)
                 blas.copy(lmbda0, lmbda)
-                blas.copy(lmbdasq, lmbdasq0)
+                blas.copy(lmbdasq0, lmbdasq)
                 xcopy(rx0, rx); ycopy(ry0, ry)
                 resx = math.sqrt(xdot(rx, rx))
                 blas.copy(rznl0, rznl);  blas.copy(rzl0, rzl);
